@@ -195,10 +195,50 @@ func vfFirstDiff(a, b []byte) int {
 	return -1
 }
 
+var (
+	vfCarryMu    sync.Mutex
+	vfCarryCache = map[string]vfCarryHit{}
+)
+
+type vfCarryHit struct {
+	seed []byte
+	dist uint64
+}
+
+// vfCarrySeed finds (deterministically, with a per-process cache for the
+// expensive 32-bit search) a seed for the reference party.
+func vfCarrySeed(mode string, refInitiator bool, realSeed []byte, dirInit bool) ([]byte, uint64, bool) {
+	bits, window, tries := uint(16), uint64(256), 1<<22
+	switch mode {
+	case "k24":
+		bits, window = 24, 1024
+	case "k32":
+		bits, window, tries = 32, 8192, 1<<26
+	}
+	key := fmt.Sprintf("%s|%v|%x|%v", mode, refInitiator, realSeed, dirInit)
+	vfCarryMu.Lock()
+	h, ok := vfCarryCache[key]
+	vfCarryMu.Unlock()
+	if ok {
+		return h.seed, h.dist, true
+	}
+	seed, dist, _, ok := refobfs2.SearchSeed(refInitiator, realSeed, dirInit, bits, window, 0xc14, tries)
+	if !ok {
+		return nil, 0, false
+	}
+	vfCarryMu.Lock()
+	if len(vfCarryCache) > 4096 {
+		vfCarryCache = map[string]vfCarryHit{}
+	}
+	vfCarryCache[key] = vfCarryHit{seed, dist}
+	vfCarryMu.Unlock()
+	return seed, dist, true
+}
+
 func TestVerifC14Stream(t *testing.T) {
 	vfC14Anchor()
 	c := ev.For("C14")
-	c.Rule("stream: lock-step cases over the gated wire: arrangement (real<->real, real client<->reference server, reference client<->real server), reference seed/padding length (0, 1, 8191, 8192, uniform), deterministic randomness of the real side, 6..40 actions write(side,n) / release(direction, plan: 1 byte, few, k, all, up to seed/magic/header/handshake/write boundary -1/0/+1, dribble) / readSmall; oracle after every released segment and write at quiescence: reader holds exactly plaintext[:released-handshakeLen]; non-trivial = mixed arrangement or >= 3 segments inside the 8-byte header; fingerprint = config + action list; in ~55 % of the real sides the padding length drawn is steered to 0, 1, 8191, 8192 (and 8193, which a correct sender maps to 0) by answering the 8-byte read behind csrand.IntRange")
+	c.Rule("stream: lock-step cases over the gated wire: arrangement (real<->real, real client<->reference server, reference client<->real server), reference seed/padding length (0, 1, 8191, 8192, uniform), deterministic randomness of the real side, 6..40 actions write(side,n) / release(direction, plan: 1 byte, few, k, all, up to seed/magic/header/handshake/write boundary -1/0/+1, dribble) / readSmall; oracle after every released segment and write at quiescence: reader holds exactly plaintext[:released-handshakeLen]; non-trivial = mixed arrangement or >= 3 segments inside the 8-byte header; fingerprint = config + action list; in half of the mixed cases the reference party searches its seed (after reading the real side's) so that the IV of one session stream wraps its low 16 / 24 / 32 bits within 256 / 1024 / 8192 blocks and that direction then carries enough data to cross the wrap; in ~55 % of the real sides the padding length drawn is steered to 0, 1, 8191, 8192 (and 8193, which a correct sender maps to 0) by answering the 8-byte read behind csrand.IntRange")
 	c.Assume("SHA-256 and AES-CTR of the Go standard library are trusted (shared with the reference peer)")
 	c.Assume("pad-key IV = MAC(label, seed)[16:32] as deployed by obfsproxy (taken from the code under test; the written specification only names the key)")
 	c.Floor("arr-realC-refS/stream", 0.22)
@@ -209,6 +249,10 @@ func TestVerifC14Stream(t *testing.T) {
 	c.Floor("refpad-extreme/mixed", 0.25)
 	c.Floor("realpad-8192/stream", 0.08) // the steering of the real side's padding draw works
 	c.Floor("realpad-0/stream", 0.08)
+	c.Floor("iv-32bit-carry-crossed/mixed", 0.15)
+	c.Floor("iv-24bit-carry-crossed/mixed", 0.20)
+	c.Floor("iv-16bit-carry-crossed/mixed", 0.25)
+	c.Floor("iv-8bit-carry-crossed/mixed", 0.40)
 	rapid.Check(t, func(rt *rapid.T) { vfC14StreamCase(rt, c) })
 }
 
@@ -226,6 +270,26 @@ func vfC14StreamCase(rt *rapid.T, c *ev.Collector) {
 		smallWire[i] = rapid.SampledFrom([]int{0, 0, 0, 0, 0, 1, 2, 5, 16}).Draw(rt, "wireReadCap")
 	}
 	scenario := rapid.SampledFrom([]string{"none", "none", "none", "coalesceA", "coalesceB"}).Draw(rt, "scenario")
+	// Counter carries of the session streams (mixed arrangements only: two real
+	// sides share their counter arithmetic).  The reference party, which may
+	// delay its seed until it has seen the peer's, searches a seed such that the
+	// IV of one session stream wraps its low 16 / 24 / 32 bits within a known
+	// number of blocks, and that direction then carries enough data to cross
+	// the wrap under the usual oracle.
+	carry, carryInit := "none", false
+	if arr != vfArrRR {
+		carry = rapid.SampledFrom([]string{"none", "none", "none", "none", "none", "k16", "k24", "k32", "k32", "k32"}).Draw(rt, "carry")
+		carryInit = rapid.Bool().Draw(rt, "carry-initiator-stream")
+		if carry == "k32" {
+			// the 32-bit search costs ~2^19 hashes: keep the real side's seed in a
+			// small set so that found seeds are reused within the process
+			nk := uint64(2)
+			if ev.Thorough() {
+				nk = 8
+			}
+			rk = rk % nk
+		}
+	}
 	// Steer the padding length the real sides draw towards the extremes of the
 	// legal range in part of the cases (MAX_PADDING+1 wraps to 0 in a correct sender).
 	for _, e := range ends {
@@ -248,8 +312,8 @@ func vfC14StreamCase(rt *rapid.T, c *ev.Collector) {
 	}
 	var hist []string
 	fail := func(sig, format string, a ...any) {
-		rt.Fatalf("VIOL[%s]: %s\n  arrangement=%s detrand=%d refA=%+v refB=%+v wireReadCap=%v steeredPadDraw=[%d %d]\n  history: %s", sig, fmt.Sprintf(format, a...),
-			vfArrNames[arr], rk, ends[0].par, ends[1].par, smallWire, ends[0].force, ends[1].force, strings.Join(hist, " "))
+		rt.Fatalf("VIOL[%s]: %s\n  arrangement=%s detrand=%d refA=%+v refB=%+v wireReadCap=%v steeredPadDraw=[%d %d] carry=%s(initiator stream: %v)\n  history: %s", sig, fmt.Sprintf(format, a...),
+			vfArrNames[arr], rk, ends[0].par, ends[1].par, smallWire, ends[0].force, ends[1].force, carry, carryInit, strings.Join(hist, " "))
 	}
 	quiesce := func() {
 		if err := n.WaitQuiescent(wire.A, wire.B); err != nil {
@@ -267,14 +331,32 @@ func vfC14StreamCase(rt *rapid.T, c *ev.Collector) {
 		}
 	}
 	// The server is started (and parked) before the client so that the order in
-	// which the real sides consume randomness is fixed.
-	forcer.arm(ends[1].force)
-	start(ends[1])
-	if err := n.WaitQuiescent(wire.B); err != nil {
-		fail("c14-wedge", "server did not park: %v", err)
+	// which the real sides consume randomness is fixed; in the mixed
+	// arrangements the real side goes first so that the reference can see its
+	// seed before choosing its own.
+	first, second := ends[1], ends[0]
+	if !first.real {
+		first, second = second, first
 	}
-	forcer.arm(ends[0].force)
-	start(ends[0])
+	forcer.arm(first.force)
+	start(first)
+	if err := n.WaitQuiescent(first.side); err != nil {
+		fail("c14-wedge", "side %v did not park: %v", first.side, err)
+	}
+	var carryDist uint64
+	if carry != "none" {
+		head := n.Head(first.side)
+		if len(head) < refobfs2.SeedLen {
+			fail("c14-handshake-length", "real side %v wrote only %d bytes", first.side, len(head))
+		}
+		seed, dist, ok := vfCarrySeed(carry, !second.real && second.side == wire.A, head[:refobfs2.SeedLen], carryInit)
+		if !ok {
+			rt.Fatalf("harness: seed search (%s) found nothing", carry)
+		}
+		second.par.Seed, carryDist = seed, dist
+	}
+	forcer.arm(second.force)
+	start(second)
 	quiesce()
 	forcer.arm(-1)
 	for _, e := range ends {
@@ -462,6 +544,37 @@ func vfC14StreamCase(rt *rapid.T, c *ev.Collector) {
 			hist = append(hist, fmt.Sprintf("rbuf(%v,%d)", e.side, k))
 		}
 	}
+	// Crossing phase: the direction whose IV was searched carries enough data to
+	// go past the wrap, with write boundaries just before / at / after it.
+	if carry != "none" {
+		for _, e := range ends {
+			for round := 0; round < 3 && !ready(e); round++ {
+				for _, x := range ends {
+					if p := n.Pending(x.side); p > 0 {
+						releaseSeg(x, p, "hs")
+					}
+				}
+			}
+		}
+		w := ends[1]
+		if carryInit {
+			w = ends[0]
+		}
+		wrapAt := int(16 * carryDist) // plaintext offset of the first byte of the block that needs the carry
+		if len(w.sent) < wrapAt+1 {
+			if k := wrapAt - len(w.sent) + rapid.IntRange(-40, 16).Draw(rt, "cross-first"); k > 0 {
+				writeEnd(w, k)
+				writeEnds[w.side] = append(writeEnds[w.side], w.hsLen+len(w.sent))
+			}
+		}
+		for _, k := range []int{rapid.IntRange(1, 100).Draw(rt, "cross-second"), rapid.IntRange(16, 3000).Draw(rt, "cross-third")} {
+			writeEnd(w, k)
+			writeEnds[w.side] = append(writeEnds[w.side], w.hsLen+len(w.sent))
+			if rapid.Bool().Draw(rt, "cross-release") {
+				releasePlan(w)
+			}
+		}
+	}
 	// Drain: release everything, make sure both directions carried data.
 	for round := 0; round < 4; round++ {
 		for _, e := range ends {
@@ -556,10 +669,36 @@ func vfC14StreamCase(rt *rapid.T, c *ev.Collector) {
 	}
 	if arr != vfArrRR {
 		cls = append(cls, "mixed")
+		// which counter carries did the session streams really cross?  (measured
+		// from the key schedule of the reference side and the bytes delivered)
+		for _, e := range ends {
+			if e.real || e.ref == nil {
+				continue
+			}
+			k := e.ref.Keys()
+			for _, d := range []struct {
+				iv []byte
+				n  int
+			}{{k.InitIV, len(ends[0].sent)}, {k.RespIV, len(ends[1].sent)}} {
+				for _, bits := range []uint{8, 16, 24, 32} {
+					if refobfs2.CarryCrossed(d.iv, bits, d.n) {
+						name := fmt.Sprintf("iv-%dbit-carry-crossed", bits)
+						dup := false
+						for _, x := range cls {
+							dup = dup || x == name
+						}
+						if !dup {
+							cls = append(cls, name)
+						}
+					}
+				}
+			}
+		}
+		cls = append(cls, "carry-mode-"+carry)
 	}
 	nt := arr != vfArrRR || hdr3
 	h := strings.Join(hist, " ")
-	c.Case(ev.Hash(arr, rk, fmt.Sprint(ends[0].par), fmt.Sprint(ends[1].par), ends[0].force, ends[1].force, h), nt, cls, func() any {
+	c.Case(ev.Hash(arr, rk, fmt.Sprint(ends[0].par), fmt.Sprint(ends[1].par), ends[0].force, ends[1].force, carry, carryInit, h), nt, cls, func() any {
 		hh := h
 		if len(hh) > 600 {
 			hh = hh[:600] + fmt.Sprintf(" ...(%d actions)", len(hist))
